@@ -72,6 +72,20 @@ AbstractParameterAliasable& AbstractParameterAliasable::operator=(const Abstract
   return *this;
 }
 
+namespace
+{
+bool sameConstraint_(const ConstraintInterface& c1, const ConstraintInterface& c2)
+{
+  if (&c1 == &c2)
+    return true;
+  const IntervalConstraint* i1 = dynamic_cast<const IntervalConstraint*>(&c1);
+  const IntervalConstraint* i2 = dynamic_cast<const IntervalConstraint*>(&c2);
+  if (i1 && i2)
+    return *i1 == *i2;
+  return c1.getDescription() == c2.getDescription();
+}
+}
+
 void AbstractParameterAliasable::aliasParameters(const std::string& p1, const std::string& p2)
 {
   // In case this is the first time we call this method:
@@ -106,8 +120,9 @@ void AbstractParameterAliasable::aliasParameters(const std::string& p1, const st
     }
   }
   else
-  // We use a small trick here, we test the constraints on the basis of their string description (C++ does not provide a default operator==() :( ).
-  if (param2->hasConstraint() && (param1->getConstraint()->getDescription() != param2->getConstraint()->getDescription()))
+  // The constraints are the same if they are the same object or two equal intervals. (Their string descriptions
+  // only show a few digits: intervals with nearly equal bounds have the same description.)
+  if (param2->hasConstraint() && !sameConstraint_(*param1->getConstraint(), *param2->getConstraint()))
   {
     std::shared_ptr<ConstraintInterface> nc(*param2->getConstraint() & *param1->getConstraint());
     ApplicationTools::displayWarning("Aliasing parameter " + p2 + " to " + p1 + " with different constraints. They get the intersection of both constraints : " + nc->getDescription());
